@@ -337,7 +337,7 @@ def run_plan(plan, sched_seed=None, sched_replay=None):
                 world.violation('sender-exceeds', '%s packet #%d: %s' %
                                 (label, idx, text))
 
-        world.check_loop_health()
+        world.check_loop_health(internal_errors=True)
 
     world, run = chanload.run_channels(
         plan, sched_seed, sched_replay,
